@@ -15,6 +15,7 @@ import Oracle.Logger
 import Oracle.Jose
 import Oracle.Errors
 import Oracle.Ws
+import Oracle.WsHs
 
 namespace Oracle
 
@@ -32,6 +33,7 @@ def handlers : List (String × (String → List String → Option String)) := [
   ("logger.", Oracle.Logger.handle),
   ("jose.", Oracle.Jose.handle),
   ("err.", Oracle.Errors.handle), ("c08.", Oracle.Errors.handle),
+  ("hs.", Oracle.WsHs.handle),
   ("ws", Oracle.Ws.handle)
 ]
 
